@@ -50,7 +50,7 @@ Catalogue == IntCatalogue("i8") \cup IntCatalogue("i32") \cup FloatCatalogue
 SpSeq == SetToSeq(Catalogue)
 
 \* candidates: spellings the transcribed parser accepts with another value than the one written
-KnownUnfaithful == {"neg_const", "neg_paren_lit", "neg_const_plus", "lit_minus"}
+KnownUnfaithful == {}      \* the four cursor candidates are repaired (fix 7c2a816)
 
 VARIABLES si, phase, res
 bvars == <<si, phase, res>>
@@ -61,9 +61,9 @@ BInit == si \in DOMAIN SpSeq /\ phase = "spec_literal" /\ res = [st |-> "none", 
 \* SpecLiteral: try `-`? literal, convert
 SpecLiteral ==
   /\ phase = "spec_literal"
-  /\ IF IsLitTok(SP.a1) /\ LitParses(SP, SP.a1)
-     THEN phase' = "expect_comma" /\ res' = [st |-> "value", v |-> IF SP.neg THEN -SP.a1.v ELSE SP.a1.v]
-     ELSE phase' = "fallback_expr" /\ res' = res
+  /\ IF IsLitTok(SP.a1) /\ LitParses(SP, SP.a1) /\ SP.op = ""      \* fork parsed a literal and `,`/end follows: commit
+     THEN phase' = "done" /\ res' = [st |-> "value", v |-> IF SP.neg THEN -SP.a1.v ELSE SP.a1.v]
+     ELSE phase' = "fallback_expr" /\ res' = res                   \* fork dropped, cursor untouched
   /\ UNCHANGED si
 
 \* FallbackExpr: parse an expression from the current cursor
@@ -83,6 +83,6 @@ BSpec == BInit /\ [][SpecLiteral \/ FallbackExpr \/ ExpectComma]_bvars
 BDone == phase = "done"
 StepFormAgrees == BDone => res = OpParse(SP)
 FaithfulOrKnown == BDone => (FaithfulBound(SP) \/ SP.name \in KnownUnfaithful)
-CandidatesExact == \A sp \in Catalogue : (sp.name \in KnownUnfaithful /\ (sp.ty # "i32" \/ sp.name # "lit_minus")) => ~FaithfulBound(sp)
+CandidatesExact == \A sp \in Catalogue : sp.name \in KnownUnfaithful => ~FaithfulBound(sp)
 EmitSp == (phase = "spec_literal") => PrintT(<<"SPELL", si, ToJson([sp |-> SP, denote |-> Denote(SP), op |-> OpParse(SP)])>>)
 =============================================================================
